@@ -2,7 +2,7 @@
  *
  *   driver <script> <seed> <reps> <N1,N2,...>
  *
- * <script>: one job per line  `<Type> <syntax> <value-sexp>`  (syntax: der|uper|oer|xer|cxer).
+ * <script>: one job per line  `<Type> <syntax>[:nocheck] <value-sexp>`  (syntax: der|uper|oer|xer|cxer).
  * A job = load the value (rf_load) -> asn_encode_to_new_buffer -> asn_decode of the produced bytes ->
  * asn_check_constraints -> asn_fprint into an open_memstream -> compare_struct -> re-encode the decoded
  * structure -> free both.  Every return code and every produced byte goes into a 64-bit FNV-1a digest.
@@ -33,6 +33,7 @@ typedef struct {
     enum asn_transfer_syntax esyn, dsyn;
     uint64_t ref;
     int ok;         /* 1 = usable job */
+    int nocheck;    /* `<syntax>:nocheck`: skip asn_check_constraints (known finding F48: self-recursive generated checker) */
 } job_t;
 
 static job_t *jobs;
@@ -93,7 +94,7 @@ static uint64_t run_job(const job_t *j, yield_t *y, int *loaderr) {
         if(rv.code != RC_OK) { ASN_STRUCT_FREE(*td, st2); st2 = 0; }
     }
     maybe_yield(y);
-    {
+    if(!j->nocheck) {
         char eb[256]; size_t el = sizeof eb; eb[0] = 0;
         int c = asn_check_constraints(td, st, eb, &el);
         h = fnv_i(h, c);
@@ -117,7 +118,7 @@ static uint64_t run_job(const job_t *j, yield_t *y, int *loaderr) {
         if(r2.buffer && r2.result.encoded >= 0) h = fnv(h, r2.buffer, (size_t)r2.result.encoded);
         free(r2.buffer);
         maybe_yield(y);
-        {   /* a second validation, this time of the decoded copy, message discarded */
+        if(!j->nocheck) {   /* a second validation, this time of the decoded copy, message discarded */
             int c = asn_check_constraints(td, st2, 0, 0);
             h = fnv_i(h, c);
         }
@@ -179,6 +180,8 @@ int main(int argc, char **argv) {
         job_t *j = &jobs[njobs++];
         memset(j, 0, sizeof *j);
         j->type = strdup(line); j->syn = strdup(sp1 + 1); j->val = strdup(sp2 + 1);
+        char *fl = strchr(j->syn, ':');
+        if(fl) { *fl = 0; j->nocheck = strstr(fl + 1, "nocheck") != 0; }
         j->td = rf_find_type(j->type);
         j->esyn = syntax_of(j->syn, 0); j->dsyn = syntax_of(j->syn, 1);
         j->ok = j->td && j->esyn != ATS_INVALID;
